@@ -84,6 +84,22 @@ impl Write for RawOut {
     }
 }
 
+/// A line's worth of bytes taken through fill_buf / consume, as the line-level result it stands
+/// for: text when it is UTF-8; otherwise what read_line would have said about it (InvalidData),
+/// with the bytes attached after a colon, because code that reads raw bytes may also accept them
+fn raw_line(bytes: &[u8]) -> LineRes {
+    match std::str::from_utf8(bytes) {
+        Ok(t) => LineRes::Ok(t.to_owned()),
+        Err(_) => {
+            let mut h = String::from("InvalidData:");
+            for b in bytes {
+                h.push_str(&format!("{:02x}", b));
+            }
+            LineRes::Err(h)
+        }
+    }
+}
+
 /// Supplies the next input line on demand (generation-time dry runs only)
 pub type Adaptive = Box<dyn FnMut(Who, &[u16; 14], &[u8]) -> Option<Vec<u8>>>;
 
@@ -271,9 +287,9 @@ impl Console for SimConsole {
                 // end of input: what was consumed so far is all there will ever be of that line
                 let wi = who as usize;
                 if !self.pending[wi].is_empty() {
-                    let t = String::from_utf8_lossy(&self.pending[wi]).into_owned();
+                    let res = raw_line(&self.pending[wi]);
                     self.pending[wi].clear();
-                    self.push(Event::Line { who, res: LineRes::Ok(t) });
+                    self.push(Event::Line { who, res });
                 } else {
                     self.push(Event::Line { who, res: LineRes::Eof });
                     if who == Who::Service {
@@ -295,6 +311,9 @@ impl Console for SimConsole {
                 self.push(Event::Fill { who, got: format!("err:{:?}", e.kind()) });
                 // EINTR is not a failed line: every std reader built on fill_buf tries again
                 if e.kind() != io::ErrorKind::Interrupted {
+                    // the read that was under way has failed: what it had already taken of the
+                    // line is part of that failed read (read_line drops it the same way)
+                    self.pending[who as usize].clear();
                     self.push(Event::Line { who, res: LineRes::Err(format!("{:?}", e.kind())) });
                 }
             }
@@ -321,7 +340,7 @@ impl Console for SimConsole {
             if who == Who::Prompt {
                 self.eof_prompt_reads = 0;
             }
-            self.push(Event::Line { who, res: LineRes::Ok(String::from_utf8_lossy(&line).into_owned()) });
+            self.push(Event::Line { who, res: raw_line(&line) });
         }
     }
 
@@ -329,9 +348,9 @@ impl Console for SimConsole {
         // a caller that took only part of a line and went on: that part is what it read
         for (wi, who) in [(0usize, Who::Prompt), (1usize, Who::Service)].iter() {
             if !self.pending[*wi].is_empty() {
-                let t = String::from_utf8_lossy(&self.pending[*wi]).into_owned();
+                let res = raw_line(&self.pending[*wi]);
                 self.pending[*wi].clear();
-                self.push(Event::Line { who: *who, res: LineRes::Ok(t) });
+                self.push(Event::Line { who: *who, res });
             }
         }
         self.steps += 1;
